@@ -85,21 +85,19 @@ func cloneValue(src interface{}, dst interface{}) {
 			dstElem.SetMapIndex(srcKey, dstVal)
 		}
 
+	case reflect.Array:
+		// an array is copied by value but its elements may hold
+		// pointers, slices or maps which have to be deep copied
+		dstElem := dstVal.Elem()
+		for i := 0; i < srcVal.Len(); i++ {
+			cloneValue(srcVal.Index(i).Interface(), dstElem.Index(i).Addr().Interface())
+		}
+
 	case reflect.Struct:
-		srcType := srcVal.Type()
 		// we deep copy structure
 		// warning: unexported pointers are copied here
 		dstVal.Elem().Set(srcVal)
-		for i := 0; i < srcVal.NumField(); i++ {
-			structField := srcType.Field(i)
-			srcField := srcVal.Field(i)
-			dstField := dstVal.Elem().Field(i)
-			if structField.IsExported() {
-				// we set to zero exported fields in order to deep copy them
-				dstField.Set(reflect.Zero(srcField.Type()))
-				cloneValue(srcField.Interface(), dstField.Addr().Interface())
-			}
-		}
+		cloneFields(srcVal, dstVal.Elem())
 
 	default:
 		dst := dstVal.Elem()
@@ -107,6 +105,26 @@ func cloneValue(src interface{}, dst interface{}) {
 			dst.Set(reflect.Zero(srcVal.Type()))
 		}
 		dstVal.Elem().Set(srcVal)
+	}
+}
+
+// cloneFields deep copies the exported fields of structure src into
+// dst, which already is a shallow copy of src
+func cloneFields(src, dst reflect.Value) {
+	srcType := src.Type()
+	for i := 0; i < src.NumField(); i++ {
+		structField := srcType.Field(i)
+		srcField := src.Field(i)
+		dstField := dst.Field(i)
+		if structField.IsExported() {
+			// we set to zero exported fields in order to deep copy them
+			dstField.Set(reflect.Zero(srcField.Type()))
+			cloneValue(srcField.Interface(), dstField.Addr().Interface())
+		} else if structField.Anonymous && srcField.Kind() == reflect.Struct {
+			// exported fields of an unexported embedded structure
+			// are promoted: they are part of the data of the object
+			cloneFields(srcField, dstField)
+		}
 	}
 }
 
